@@ -48,7 +48,9 @@ Definition ident := (N * bool)%type.
 Inductive iev :=
 | IHandshake                 (* a new client connects (skip-verify, good client cert): which certificate does it see *)
 | IReload (good : bool) (i : ident)  (* the files are replaced and the identity reloaded; bad files: the reload fails *)
-| IUse (k : N).              (* an established connection is used again *)
+| IUse (k : N)               (* an established connection is used again *)
+| IReturning (withcert : bool). (* a client that connected before comes back with its session cache (with / without the
+                                good client certificate): it is authenticated as, and sees what, a new client would *)
 
 Record istate := mkI { i_cur : ident; i_conns : list N }.  (* certificate seen by each established connection *)
 
@@ -57,6 +59,8 @@ Definition istep (s : istate) (e : iev) : istate * list N :=
   | IHandshake => (mkI (i_cur s) (i_conns s ++ [fst (i_cur s)]), [1; fst (i_cur s); if snd (i_cur s) then 1 else 0])
   | IReload good i => (if good then mkI i (i_conns s) else s, [if good then 1 else 0])
   | IUse k => (s, match nth_error (i_conns s) (N.to_nat k) with Some c => [1; c] | None => [0] end)
+  | IReturning withcert =>
+      (s, if negb (snd (i_cur s)) || withcert then [1; fst (i_cur s)] else [0])
   end.
 
 Fixpoint irun (s : istate) (es : list iev) : list N :=
@@ -75,6 +79,7 @@ Fixpoint parse_iev (c : list N) : list iev :=
   | 0 :: r => IHandshake :: parse_iev r
   | 1 :: good :: cert :: ca :: r => IReload (negb (good =? 0)) (cert, negb (ca =? 0)) :: parse_iev r
   | 2 :: k :: r => IUse k :: parse_iev r
+  | 3 :: k :: r => IReturning (k =? 0) :: parse_iev r
   | _ => []
   end.
 
